@@ -34,6 +34,7 @@ type pqRoles struct {
 	fItems           string // field key of the heap's item slice
 	chunkT           *types.Named
 	push, pop        *Func
+	itemLit          *ast.CompositeLit // the item literal built by the priority Enqueue
 }
 
 func (c *Ctx) pqRoles(rule string) *pqRoles {
@@ -114,6 +115,7 @@ func (c *Ctx) pqRoles(rule string) *pqRoles {
 						r.fIndex = key.Name
 						r.fCounter = fk
 					}
+					r.itemLit = x
 				}
 			}
 			return true
@@ -135,10 +137,20 @@ func (c *Ctx) pqRoles(rule string) *pqRoles {
 			}
 		}
 	}
+	if r.fIndex == "" && r.itemT != nil {
+		// the tie-break field: the other integer field of the item struct
+		if st, ok := r.itemT.Underlying().(*types.Struct); ok {
+			for i := 0; i < st.NumFields(); i++ {
+				if b, ok := st.Field(i).Type().Underlying().(*types.Basic); ok && b.Info()&types.IsInteger != 0 && st.Field(i).Name() != r.fPrio {
+					r.fIndex = st.Field(i).Name()
+				}
+			}
+		}
+	}
 	r.push = c.P.byObj[modPath+"/internal/linkedbuffer.Chunk.Push"]
 	r.pop = c.P.byObj[modPath+"/internal/linkedbuffer.Chunk.Pop"]
 	for name, v := range map[string]any{"priority queue type": r.pq, "priority Enqueue": r.pqEnq, "priority Dequeue": r.pqDeq, "fifo Enqueue": r.fifoEnq, "fifo Dequeue": r.fifoDeq,
-		"heap type": r.heapT, "heap Less": r.less, "item priority field": r.fPrio, "item index field": r.fIndex, "insertion counter": r.fCounter, "heap items": r.fItems, "Chunk.Push": r.push, "Chunk.Pop": r.pop} {
+		"heap type": r.heapT, "heap Less": r.less, "item priority field": r.fPrio, "item index field": r.fIndex, "heap items": r.fItems, "Chunk.Push": r.push, "Chunk.Pop": r.pop} {
 		missing := false
 		switch x := v.(type) {
 		case *types.Named:
@@ -382,7 +394,22 @@ func isEmptySlice(info *types.Info, e ast.Expr) bool {
 
 func (c *Ctx) ruleTieIndex(rule string, r *pqRoles) {
 	c.Rep.rule(rule, "E2 path", "Enqueue: the item's tie index is read from the insertion counter, which is then incremented exactly once before heap.Push on every accepting path; the counter is otherwise only reset (to 0) together with emptying the heap", 2)
-	if r.pqEnq == nil || r.fCounter == "" {
+	if r.pqEnq == nil {
+		return
+	}
+	if r.fCounter == "" {
+		src := "nothing"
+		if r.itemLit != nil {
+			for _, el := range r.itemLit.Elts {
+				if kvx, ok := el.(*ast.KeyValueExpr); ok {
+					if key, _ := kvx.Key.(*ast.Ident); key != nil && key.Name == r.fIndex {
+						src = types.ExprString(kvx.Value)
+					}
+				}
+			}
+		}
+		c.Rep.fail(rule, r.pqEnq.Short(), "tie index does not come from a monotone insertion counter", c.P.pos(r.pqEnq.Body),
+			"the item's tie-break index is taken from `"+src+"`, not from a counter field of the queue that only ever grows: after a Dequeue a later item can get an index below that of an earlier, still queued item of the same priority, and overtakes it")
 		return
 	}
 	mk := func(root *Func) *seqRule {
@@ -637,6 +664,13 @@ func (c *Ctx) ruleFifoSegments(rule string, r *pqRoles) {
 		}
 		sg.Syms = out
 		return sg
+	}
+	// the read/write indices are written only by Chunk.Push / Chunk.Pop
+	for _, a := range c.lockFacts().Accesses {
+		if (a.Field == fW || a.Field == fR) && a.Write && !a.Private {
+			c.Rep.check(a.Fn == r.push || a.Fn == r.pop, rule, a.Fn.Short(), "chunk index written outside Push/Pop", c.P.posOf(a.Pos), shortKey(a.Field)+" written only by Chunk.Push/Pop",
+				shortKey(a.Field)+" is written in "+a.Fn.Short()+": only Chunk.Push and Chunk.Pop may move a segment's indices (rewinding or skipping a segment reorders or drops the items behind it)")
+		}
 	}
 	// Chunk.Push
 	if r.push != nil {
